@@ -26,7 +26,7 @@ PARENT_PAGE = {"m": "module/m.html", "t_pub": "type/t_pub.html", "s_pub": "proc/
 OWN_PAGE = {"t_pub": "type/t_pub.html", "t_prv": "type/t_prv.html", "s_pub": "proc/s_pub.html", "s_prv": "proc/s_prv.html",
             "g_pub": "interface/g_pub.html", "ai_prv": "interface/ai_prv.html", "mp": "proc/mp.html", "mpi": "interface/mp.html", "nl_prv": "namelist/nl_prv.html", "t_ext": "type/t_ext.html"}
 PARENT = {"v_pub": "m", "v_prv": "m", "v_pro": "m", "u_pub": "m", "t_pub": "m", "t_prv": "m", "c_pub": "t_pub", "c_prv": "t_pub",
-          "b_pub": "t_pub", "b_prv": "t_pub", "s_pub": "m", "s_prv": "m", "lv": "s_pub", "inner": "s_pub", "g_pub": "m", "ai_prv": "m", "mp": "sm", "mplv": "mp", "mpi": "m", "nl_prv": "s_prv", "t_ext": "m"}
+          "b_pub": "t_pub", "b_prv": "t_pub", "s_pub": "m", "s_prv": "m", "lv": "s_pub", "inner": "s_pub", "g_pub": "m", "ai_prv": "m", "mp": "sm", "mplv": "mp", "mpi": "m", "nl_prv": "s_prv", "t_ext": "m", "en_pub": "m", "en_prv": "m"}
 
 
 def trc(n):
@@ -44,7 +44,8 @@ def meta(o, ind):
 def render(opt):
     src = (meta(opt["ofile"], "") + f"!! {trc('file')}\n"
            "module m\n" + meta(opt["omod"], "  ") + f"  !! {trc('m')}\n  implicit none\n"
-           "  private :: s_prv, ai_prv\n"
+           "  private :: s_prv, ai_prv, en_prv\n"
+           f"  enum, bind(c)\n    enumerator :: en_pub = 1 !! {trc('en_pub')}\n    enumerator :: en_prv !! {trc('en_prv')}\n  end enum\n"
            f"  integer, public :: v_pub !! {trc('v_pub')}\n"
            f"  integer, private :: v_prv !! {trc('v_prv')}\n"
            f"  integer, protected :: v_pro !! {trc('v_pro')}\n"
@@ -164,6 +165,7 @@ def run(tier, seed, ck: Check):
         if opt["hide_undoc"]:
             sel.discard("ai_prv")
             sel.discard("mpi")
+        sel.update(("en_pub", "en_prv"))   # C05-F5: enumerators are shown whatever `display` says
         sel.add("nl_prv")          # C05-F3: the namelist of a procedure is documented whatever happens to the procedure
         return sel
 
@@ -185,6 +187,8 @@ def run(tier, seed, ck: Check):
                 hit = False
                 if b.startswith("nl_prv "):
                     hit = ck.known_finding("C05-F3")
+                elif b.startswith(("en_pub ", "en_prv ")):
+                    hit = ck.known_finding("C05-F5")
                 elif c["opt"]["hide_undoc"] and b.startswith(("ai_prv ", "mpi ")):
                     hit = ck.known_finding("C05-F2")
                 elif c["opt"]["ofile"] != "absent":
